@@ -19,8 +19,8 @@ MODEL = dict(
     bin="vault",
     trace="Trace_Vault",
     mc=[
-        _mc(0, depth=3, every=60, tevery=10, amts=(0, 1, 3)),
-        _mc(1, depth=3, every=80, tevery=10),
+        _mc(0, depth=4, tdepth=4, every=20, tevery=2, amts=(0, 1, 3)),
+        _mc(1, depth=3, tdepth=4, every=1, tevery=10),
         _mc(1, bug="withdraw_floor"),
         _mc(0, bug="mint_floor"),
         _mc(0, bug="no_plus_one"),
